@@ -191,12 +191,13 @@ class SparselyBin(Factory, Container):
                 self.origin,
             )
             out.entries = self.entries + other.entries
-            out.bins = self.bins.copy()
+            # the result must not share bin objects with either operand
+            out.bins = {}
+            for i, v in self.bins.items():
+                out.bins[i] = v + other.bins[i] if i in other.bins else v.copy()
             for i, v in other.bins.items():
-                if i in out.bins:
-                    out.bins[i] = out.bins[i] + v
-                else:
-                    out.bins[i] = v
+                if i not in out.bins:
+                    out.bins[i] = v.copy()
             return self._keepContent(out).specialize()
 
         raise ContainerException(f"cannot add {self.name} and {other.name}")
